@@ -2054,7 +2054,11 @@ func refCheckAllSources(ctx context.Context, getAddrs chunks.InsertAddrsCurry, r
 			return
 		}
 		addrs := make(hash.HashSet)
-		getAddrs(c)(ctx, addrs, func(hash.Hash) bool { return false })
+		if err := getAddrs(c)(ctx, addrs, func(hash.Hash) bool { return false }); err != nil {
+			// the chunk's references are unknown: it cannot be reference-checked
+			checkErr = err
+			return
+		}
 		remaining, err := refCheck(toHasRecords(addrs))
 		if err != nil {
 			checkErr = err
